@@ -132,6 +132,17 @@ func genC02(t *rapid.T) any {
 		}
 		c.Items = append(c.Items, SelItem{Expr: e, Alias: "oa"})
 	}
+	if len(pt.NullNum) > 0 && rapid.IntRange(0, 3).Draw(t, "sparse") == 0 {
+		// an equality on a key that some rows do not have (or hold NULL in), as the condition of a CASE: for
+		// those rows it is not true, whatever the rows before them held
+		name := pick(t, pt.NullNum, "sparse.col")
+		cond := sq.Cmp("=?", pt.col(name), constFor(t, pt.Tb.Col(name), "sparse.c"))
+		e := sq.Case([]*sq.E{cond, sq.Str("has")}, sq.Str("has-not"))
+		if rapid.Bool().Draw(t, "sparse.noelse") {
+			e = sq.Case([]*sq.E{cond, pt.col(name)}, nil)
+		}
+		c.Items = append(c.Items, SelItem{Expr: e, Alias: "osp"})
+	}
 	if c.Star == 0 && rapid.IntRange(0, 2).Draw(t, "shadow") == 0 {
 		// output names spelled like source columns (SELECT b AS a, a AS b): an alias names an output
 		// column, it never changes what a column reference in another item reads
@@ -278,6 +289,9 @@ func checkC02(c *C02Case) Result {
 			res.Labels = append(res.Labels, "nested-path")
 		}
 		res.Labels = append(res.Labels, fmt.Sprintf("depth:%d", minInt(it.Expr.Depth(), 6)))
+		if it.Alias == "osp" {
+			res.Labels = append(res.Labels, "equality-on-a-sparse-key-in-CASE")
+		}
 		if it.Alias == "oa" {
 			res.Labels = append(res.Labels, "nesting-sensitive-arithmetic")
 		}
